@@ -28,6 +28,7 @@ def tables_of(ts):
         mnode=np.ascontiguousarray(ts.mutations_node, dtype=np.int32),
         mpos=np.ascontiguousarray(ts.sites_position[ts.mutations_site], dtype=np.float64),
         ntime=np.ascontiguousarray(ts.nodes_time, dtype=np.float64),
+        breaks=np.ascontiguousarray(ts.breakpoints(as_array=True), dtype=np.float64),
     )
 
 
@@ -286,13 +287,15 @@ def _head(i, op, tb):
             "rem " + " ".join(str(int(x)) for x in tb["rem"])]
 
 
-def encode_count(i, tb, mask, sb):
+def encode_count(i, tb, mask, sb, wantspan=False):
     return "\n".join(_head(i, "count", tb) + [
         f"sb {1 if sb else 0}",
         "sample " + " ".join("1" if b else "0" for b in mask),
         "mnode " + " ".join(str(int(x)) for x in tb["mnode"]),
         "mpos " + " ".join(f2h(x) for x in tb["mpos"]),
         "ntime " + " ".join(f2h(x) for x in tb["ntime"]),
+        "breaks " + " ".join(f2h(x) for x in tb["breaks"]),
+        f"wantspan {1 if wantspan else 0}",
         "end"]) + "\n"
 
 
@@ -323,8 +326,12 @@ def run_model(text):
             out[i] = None
         elif parts[1] == "count":
             f = [x.strip() for x in parts[2].split("|")]
+            table = None
+            if len(f) > 7 and f[7]:
+                table = [_ints(row) for row in f[7].split(";")]
             out[i] = dict(flags=f[0], mut_edge=_ints(f[1]), edge_muts=_floats(f[2]), edge_span=_floats(f[3]),
-                          spec_edge=_ints(f[4]), node_samples=_floats(f[5]), spec_weight=_ints(f[6]))
+                          spec_edge=_ints(f[4]), node_samples=_floats(f[5]), spec_weight=_ints(f[6]),
+                          span_weights=table)
         elif parts[1] == "unary":
             f = parts[2].split()
             out[i] = dict(flags=f[0], contains=f[1] == "1", locally=f[2] == "1")
@@ -431,6 +438,17 @@ def naive_unary_nodes(ts, ignore=()):
         hit |= tree.num_children_array[:N] == 1
     out = set(int(u) for u in np.where(hit)[0])
     return out - set(int(x) for x in ignore)
+
+
+def spec_spans(tb, table):
+    """the span integral of the specification from the model's table of weights at the break points"""
+    b = tb["breaks"]
+    d = np.diff(b)
+    return np.array([float(np.sum(np.asarray(row[:-1], dtype=np.float64) * d)) for row in table])
+
+
+def span_table_cost(tb):
+    return int(tb["left"].size) * int(tb["breaks"].size) * int(tb["N"])
 
 
 def integer_coords(tb):
